@@ -49,7 +49,9 @@ func (c *consumption) Close() error {
 
 	c.closed = true
 	verifhook.Point("media.cclose.flagged", c.consumer)
-	c.recvQueue.Signal()
+	// 入列一个 nil 元素(加锁并发信号)，而不是只发信号：
+	// 消费 routine 可能刚检查完 closed 但尚未进入等待，单纯的 Signal 会丢失
+	c.recvQueue.Push(nil)
 	return nil
 }
 
